@@ -115,6 +115,9 @@ func main() {
 					}
 				}()
 				pc.run(c, r)
+				if d, ok := codecDeps[pc.id]; ok {
+					importCodec(c, r, "RC", d.decoded, d.encoded, d.short)
+				}
 			}()
 		}
 		if err == nil {
